@@ -2,5 +2,5 @@ SPECIFICATION Spec
 CONSTANTS
   MaxSrc = 4
   MaxT = 13
-INVARIANTS FailsExactlyWhenTooSmall PictureAllowed ChainAllowed
+INVARIANTS FactorClosedForm FailsExactlyWhenTooSmall PictureAllowed ChainAllowed
 CHECK_DEADLOCK FALSE
